@@ -22,7 +22,8 @@ RULE = ("match: first array = distinct values of one dtype (i1..u8 incl. type li
 RULE += (" " + 'Also: presorted= spelt as bool / int / numpy.bool_; match_wide kind large-first (first array of 10^2..2*10^4 distinct values, second array of 3..13 elements with repeats); the index arrays returned by match / unique / rem_dup are compared with their copies after a further call.')
 ASSUMPTIONS = [
     "floats are finite (NaN never equals itself, the statement speaks of equal elements)",
-    "strings contain no NUL and no white space (numpy fixed-width comparison semantics are not esutil's)",
+    "strings contain no NUL; blanks (also trailing ones) are ordinary characters, as they are for numpy's == on "
+    "fixed-width string arrays; a byte string does not end in NUL (numpy strips those)",
     "both arrays of a match call share one dtype kind; sub-check match_wide mixes integer dtypes whose numpy "
     "common type is an integer (u8 against a signed type promotes to float64 and is not generated)",
 ]
@@ -37,7 +38,7 @@ LEVEL_TEXT = ("Generated-input search against an independent dict model; shows t
 INT_TYPES = ["i1", "u1", "i2", "u2", "i4", "u4", "i8", "u8"]
 FLT_TYPES = ["f4", "f8"]
 STR_TYPES = ["S", "U"]
-ALPHABET = "abcXYZ019_"
+ALPHABET = "abcXYZ019_ "        # a blank too: "ngc 10 " and "ngc 10" are different values
 
 
 def _elements(dt):
@@ -388,6 +389,17 @@ def wide_cases(draw):
     kind = draw(st.sampled_from(["mixed", "mixed", "large", "large-mixed", "large-first"]))
     if kind == "large-first":
         # first array hundreds to ten thousands of times longer than the second, which repeats values
+        if draw(st.integers(0, 2)) == 0:
+            # the first array is a run of consecutive integers covering most of a narrow type's range
+            d1 = draw(st.sampled_from(["i1", "u1", "i2", "u2"]))
+            info = np.iinfo(d1)
+            full = int(info.max) - int(info.min) + 1
+            n1 = draw(st.sampled_from([full, full - 1, full // 2 + 3, full // 2 + 40]))
+            start = draw(st.integers(int(info.min), int(info.max) - n1 + 1))
+            return {"kind": kind, "dt1": d1, "dt2": d1, "n1": n1, "run_from": start, "seed": draw(st.integers(0, 2**32 - 1)),
+                    "pick2": draw(st.lists(st.integers(-3, n1 + 2), min_size=2, max_size=9)),
+                    "dup2": draw(st.lists(st.integers(0, 8), min_size=1, max_size=4)),
+                    "mode": draw(st.sampled_from(["plain", "presorted", "presorted", "multi"]))}
         d1 = draw(st.sampled_from(["i4", "i8", "f8", "u2"]))
         n1 = draw(st.sampled_from([101, 257, 1001, 4097, 20011])) + draw(st.integers(-2, 2))
         return {"kind": kind, "dt1": d1, "dt2": d1, "n1": n1, "seed": draw(st.integers(0, 2**32 - 1)),
@@ -432,6 +444,16 @@ def _wide_arrays(case):
         rng = np.random.Generator(np.random.PCG64(case["seed"]))
         n1 = case["n1"]
         v1 = (rng.permutation(3 * n1)[:n1] - n1).tolist()       # distinct, unsorted, with gaps
+        if "run_from" in case:
+            v1 = list(range(case["run_from"], case["run_from"] + n1))
+            info = np.iinfo(d1)
+            if case["mode"] != "presorted":
+                v1 = [v1[i] for i in rng.permutation(n1).tolist()]
+            v2 = [v1[k] if 0 <= k < n1 else (int(info.min) if k < 0 else int(info.max)) for k in case["pick2"]]
+            v2 = v2 + [v2[k % len(v2)] for k in case["dup2"]]
+            if case["mode"] == "presorted":
+                v1 = sorted(v1)
+            return v1, v2, np.array(v1, dtype=d1), np.array(v2, dtype=d2)
         if d1 == "u2":
             v1 = [v % 65536 for v in (rng.permutation(65536)[:n1]).tolist()]
         if case["mode"] == "presorted":
@@ -495,6 +517,8 @@ def classify_wide(case):
     if case["kind"] == "large-first":
         n2 = len(case["pick2"]) + len(case["dup2"])
         labs += ["nt:large-first-array", "n1/n2:%s" % (">=100" if case["n1"] >= 100 * n2 else "<100")]
+        if "run_from" in case:
+            labs.append("first-array-consecutive-run")
         return labs
     if case["kind"] != "large":
         labs.append("nt:mixed-integer-dtypes")
